@@ -21,13 +21,13 @@ func lineAlphabet(unit string) []string {
 	return []string{
 		"- a", "- b", u + "- a", u + "- b", u + u + "- a", u + u + u + "- a", // levels 1..4
 		u[:len(u)/2] + " - a", // not a whole multiple (for a TAB unit: tab+space mix)
-		u + "a",                // no bullet
-		u + "-",                // empty text
-		"\t " + "- a",          // tab and space mixed in one indentation
-		"",                     // blank
-		"   ",                  // whitespace-only
-		"# h",                  // heading root
-		"* a", "+ b",           // other bullets
+		u + "a",               // no bullet
+		u + "-",               // empty text
+		"\t " + "- a",         // tab and space mixed in one indentation
+		"",                    // blank
+		"   ",                 // whitespace-only
+		"# h",                 // heading root
+		"* a", "+ b",          // other bullets
 		u + "* b",
 		other(u) + "- a", // indented wholly with the other character
 	}
